@@ -104,6 +104,34 @@ CLAIMED = {
         "DESIGN.md §4 C20"),
 }
 
+# Additions made after the sub-agent seeding rounds (DESIGN.md 8.5): (technique +=, level text +=, level note +=)
+ADDENDA = {
+    "C03": ("; bound derivation for one-byte displacements of the ModRM emitters",
+            " Also decides that a memory operand's displacement is emitted as a single (sign-extended) byte only where it is known to lie in [-128, 127].", ""),
+    "C04": ("; type-level widening rule over the generator's parameter-assembly templates instantiated into a scratch translation unit",
+            " Also decides that the generated C and the emulator reassemble a 64-bit parameter from its two executor slots with a zero-extended low half.", ""),
+    "C07": ("; type-level widening rule over the parameter-assembly templates of orcprogram-c.c / orcc.c instantiated into a scratch translation unit",
+            " Also decides that every emitted statement that reassembles a 64-bit parameter zero-extends the low half before OR-ing the shifted high half.", ""),
+    "C08": ("; must-hold analysis of the initialiser calls of orc_init and ordering of its once flag",
+            " Also decides that orc_init runs every initialiser with the global mutex held (or inside a once region) and publishes its flag only after they finish.",
+            " Declined after building: once-pairing inside generated --lazy-init wrappers (C08-D6 of the plan)."),
+    "C10": ("; side-of-event comparison for every branch/label pair emitted by orc_x86_compile; REX coverage of opcode-embedded register numbers",
+            " Also decides that no branch emitted by orc_x86_compile jumps across save_registers / set_mxcsr / restore_mxcsr / restore_registers, and that push/pop carry bit 3 of the register in a REX prefix (so r12..r15 are the registers actually saved).",
+            " Only the SysV AMD64 arm of the ABI table is decided (the i386 arm is not in this build's AST)."),
+    "C12": ("; REX coverage and REX-role agreement between the opcode and ModRM byte emitters (with register-provenance feasibility filter); bound derivation for one-byte displacements",
+            " Also decides that register numbers embedded in the opcode byte get their bit 3 from a REX prefix, that for every instruction type the operand placed in ModRM.rm / ModRM.reg is the one handed to REX.B / REX.R wherever a register >= 8 can reach it, and that a displacement is emitted as one byte only within [-128, 127].", ""),
+    "C13": ("; type-level widening rule on the integer decoders",
+            " Also decides that the integer decoders widen every byte before shifting it into place (no sign extension, no lost bits).", ""),
+    "C14": ("; free-then-overwrite path rule over all parser handlers",
+            " Also decides that no handler returns with a parser-state field it has freed still in place.", ""),
+    "C16": ("; symbolic split/merge identities of the chunk list (shared with C09)",
+            " Also decides that the code-chunk list links stay consistent across split/merge, without which orc_code_chunk_free releases a chunk another OrcCode owns.", ""),
+    "C17": ("; symbolic split/merge identities of the chunk list (shared with C09)",
+            " Also decides the premise under which allocator history is harmless: the chunk list stays a tiling across split/merge.", ""),
+    "C20": ("; finite evaluation of the flag-filter guards over all 3-bit masks (semantic equivalence with required & ~flags == 0)",
+            "", " The flag filter and the slot index are recognised semantically (any equivalent guard / name lookup or pointer difference), not by source text."),
+}
+
 NOT_YET = "check under construction in this round; not claimed until its rules are exact on the current tree"
 NOT_APPLICABLE = {
     "C01": "value equivalence of JIT code and emulation over all inputs/register allocations: no structural necessary condition beyond what C03/C10/C11 decide; needs execution or translation validation (other technique families)",
@@ -118,6 +146,9 @@ def main():
         pid = p["id"]
         if pid in CLAIMED:
             tech, text, note, ref = CLAIMED[pid]
+            if pid in ADDENDA:
+                a = ADDENDA[pid]
+                tech, text, note = tech + a[0], text + a[1], note + a[2]
             checks.append({
                 "property_id": pid,
                 "quick_cmd": "bin/check %s --tier quick" % pid,
